@@ -307,9 +307,13 @@ fn gen_case(r: &mut Rng, id: &str) -> Case {
         };
         p.fajr_angle = Some(X(pick_ang(r)));
         p.isha_angle = Some(X(pick_ang(r)));
-        p.imsaak_angle = Some(X(match r.int(0, 5) {
+        p.imsaak_angle = Some(X(match r.int(0, 7) {
             0 => 0.5,
             1 => 3.0,
+            // explicitly configured values that coincide with a default (1.5) or with another field's value: "equal to
+            // the default" must not be mistaken for "left at the default"
+            2 => 1.5,
+            3 => 1.0,
             _ => r.range(0.5, 3.0),
         }));
     }
@@ -362,6 +366,24 @@ pub fn run(ctx: &Ctx, st: &mut Stats, id: &str) {
         _ => 401,
     };
     let mut r = Rng::new(ctx.seed, stream, ctx.shard);
+    if id == "C03" {
+        // what "the six angle-based methods" configure: the published ITL table, checked in this process and this
+        // process configuration (a default that follows the environment or an earlier call would show here)
+        let table: [(usize, f64, f64, f64); 8] = [(1, 20.0, 18.0, 0.0), (2, 19.5, 17.5, 0.0), (3, 18.0, 18.0, 0.0), (4, 18.0, 18.0, 0.0), (5, 15.0, 15.0, 0.0), (6, 18.0, 17.0, 0.0), (7, 18.0, 0.0, 90.0), (8, 19.5, 0.0, 90.0)];
+        for (m, fa, ia, ii) in table {
+            for round in 0..2 {
+                let p = Params::new(METHODS[m]);
+                st.evaluations += 1;
+                let got = (p.angles.get(&Prayer::Fajr).copied(), p.angles.get(&Prayer::Isha).copied(), p.angles.get(&Prayer::Imsaak).copied(), p.intervals.get(&Prayer::Isha).copied(), p.intervals.get(&Prayer::Fajr).copied(), p.intervals.get(&Prayer::Imsaak).copied());
+                let want = (Some(fa), Some(ia), Some(1.5), Some(ii), Some(0.0), Some(0.0));
+                let offsets_zero = SEVEN.iter().all(|k| p.minutes.get(k) == Some(&0.0));
+                st.count("method_default_tables_checked");
+                if got != want || !offsets_zero {
+                    st.violate("method_defaults", &json!({"method_defaults": m, "round": round}), json!({"method": format!("{:?}", METHODS[m]), "got(fajr,isha,imsaak angle; isha,fajr,imsaak interval)": format!("{got:?}"), "want": format!("{want:?}"), "minute_offsets_all_zero": offsets_zero}));
+                }
+            }
+        }
+    }
     // fixed corpus first (partitioned over shards)
     let corpus = gen::corpus_sites(60.0);
     let mut idx = 0u64;
